@@ -133,6 +133,12 @@ BENIGN = [
     # list keeps its entries
     ("ok:helper_strings_field", "field_equals(r, ['s'], r.l)", False), ("ok:helper_strings_field2", "field_contains(r, ['s'], r.l)", False),
     ("ok:helper_strings_field3", "field_contains(r, ['s'], r.l, word_boundary=True)", False),
+    # whitelisted constructors / operators of the library's own classes applied to values of the record: no method of a
+    # value is invoked, no field of the record is emptied or rewritten
+    ("ok:stringlist_ctor", "stringlist(r.sl) == ['x', 'Y']", False), ("ok:stringlist_ctor2", "stringlist(r.sl) and stringlist(r.sl)", False),
+    ("ok:in_subnet", "r.c in net.ipv4.Subnet('10.0.0.0/8')", False),
+    ("ok:in_subnet2", "any(x in net.ipv4.Subnet('10.0.0.0/8') for x in [r.c, '10.1.1.1'])", False),
+    ("ok:in_network", "r.c in net.ipnetwork('10.0.0.0/8')", False),
     ("ok:type", "Type.string == 'abc'", False), ("ok:missing_attr", "r.s.nosuch", False), ("ok:any_canary", "any(x for x in [r.c])", False),
 ]
 # contexts: {H} is replaced by the shape; every context evaluates H at least once on the records used
@@ -261,12 +267,16 @@ def _record(log, trip):
 
     from flow.record import RecordDescriptor
     if "desc" not in _state:
-        _state["desc"] = RecordDescriptor("t/c09", [("string", "s"), ("varint", "n"), ("string[]", "l"), ("string", "c")])
-    rec = _state["desc"](s="abc", n=5, l=["a", "B"], c="placeholder",
+        _state["desc"] = RecordDescriptor("t/c09", [("string", "s"), ("varint", "n"), ("string[]", "l"), ("string", "c"),
+                                                    ("stringlist", "sl")])
+        from flow.record.base import FieldType
+        # the canary is a field-type value as far as isinstance goes (operators of the library's own classes may look)
+        _state["canary_cls"] = type("CanaryFT", (Canary, FieldType), {})
+    rec = _state["desc"](s="abc", n=5, l=["a", "B"], c="placeholder", sl=["x", "Y"],
                          _generated=datetime.datetime(2020, 1, 1, tzinfo=datetime.timezone.utc))
     cs = _make_canary_str(log)
     object.__setattr__(rec, "s", cs("abc"))
-    object.__setattr__(rec, "c", Canary(log, "c"))
+    object.__setattr__(rec, "c", _state["canary_cls"](log, "c"))
     return rec
 
 
@@ -277,6 +287,7 @@ def _snapshot(rec):
 
 MODEL_RECORD = ["rec", "t/c09", [["s", "string", ["str", "abc"]], ["n", "varint", ["int", "5"]],
                                 ["l", "string[]", ["list", [["str", "a"], ["str", "B"]]]], ["c", "string", ["foreign", 100]],
+                                ["sl", "stringlist", ["list", [["str", "x"], ["str", "Y"]]]],
                                 ["_source", "string", ["none"]], ["_classification", "string", ["none"]],
                                 ["_generated", "datetime", ["fval", "datetime", ["int", "1577836800000000"]]],
                                 ["_version", "varint", ["int", "1"]]]]
